@@ -89,9 +89,23 @@ def r04_5(ck: Check) -> None:
 
 
 def r04_6(ck: Check) -> None:
+    """forks() pairs every tip with a block computed from it (its last common ancestor with the active chain); how the ancestor walk is
+    packaged (nested function, method, inlined loop) is not prescribed"""
+    from ..engine.match import function_value
+    from ..engine.terms import mentions
     s = ck.summ(CSQ + "forks", 0)
-    require_return(ck, "R04.6", s, Spec(s, ("self",)), "[(h, _find_lca_with_main(h)) for h in self.heads.values()]",
-                   "forks() reports every tip with its last common ancestor with the active chain")
+    sp = Spec(s, ("self",))
+    v = function_value(s)
+    construct = "forks() reports every tip of self.heads paired with a block derived from it"
+    dom = sp.term("self.heads")
+    tip = ("e", dom, "val")
+    ok = (v is not None and v[0] == "comp" and v[1] == "list" and len(v[3]) == 1 and v[3][0] == (dom, ()) and v[2][0] == "tuple"
+          and len(v[2][1]) == 2 and v[2][1][0] == tip and v[2][1][1][0] != "c"
+          and (mentions(v[2][1][1], tip) or v[2][1][1][0] == "lv"))
+    if ok:
+        ck.ok("R04.6", construct, "", s.fi.loc)
+    else:
+        ck.violated("R04.6", construct, "returns %s" % (show(v)[:200] if v is not None else None), s.fi.loc)
 
 
 def check(ck: Check) -> None:
